@@ -66,6 +66,7 @@ type Exec struct {
 	wroteAll      string
 	nown          int
 	mapsHavocked  bool
+	pkgHavocked   map[string]bool
 	nmepoch       int
 	epochAlloc    map[int]T
 	obsSeen       map[string]bool
@@ -187,6 +188,7 @@ type modSet struct {
 	locals map[*ssa.Alloc]bool
 	heaps  map[string]Sort
 	maps   bool // every map heap
+	pkgs   []string
 	ghosts []string
 	all    bool // opaque call
 	alloc  bool
@@ -354,6 +356,9 @@ func (ex *Exec) callModified(in ssa.CallInstruction, ms *modSet) {
 				if m.allMaps {
 					ms.maps = true
 				}
+				if m.pkgHeaps != "" {
+					ms.pkgs = append(ms.pkgs, m.pkgHeaps)
+				}
 				for i, h := range m.heaps {
 					srt := ""
 					if m.sorts != nil {
@@ -390,6 +395,9 @@ func (ex *Exec) callModified(in ssa.CallInstruction, ms *modSet) {
 				}
 				if m.allMaps {
 					ms.maps = true
+				}
+				if m.pkgHeaps != "" {
+					ms.pkgs = append(ms.pkgs, m.pkgHeaps)
 				}
 			}
 			ms.alloc = true
@@ -604,6 +612,7 @@ func (ex *Exec) run() {
 	ex.outSt = map[*ssa.BasicBlock]*State{}
 	ex.edge = map[[2]int]T{}
 	ex.heapWrites = map[string]bool{}
+	ex.pkgHavocked = map[string]bool{}
 	ex.obsSeen = map[string]bool{}
 	ex.beforeSeen = map[string]bool{}
 	ex.wholeWrites = map[string]bool{}
@@ -854,6 +863,17 @@ func (ex *Exec) frameObligations() {
 			allMaps = true
 		}
 	}
+	for pk := range ex.pkgHavocked {
+		ok := false
+		for _, m := range ex.con.Modifies {
+			if m.pkgHeaps == pk {
+				ok = true
+			}
+		}
+		if !ok {
+			vc.oblige("frame", fmt.Sprintf("frame:%s:pkgheaps(%s)", ex.con.Name, pk), TTrue, TFalse, ex.pos(ex.fn.Pos())).SetNote("a callee may modify the state of " + pk + " objects; contract lacks `modifies pkgheaps(" + pk + ")`")
+		}
+	}
 	if ex.mapsHavocked && !allMaps {
 		vc.oblige("frame", fmt.Sprintf("frame:%s:allmaps", ex.con.Name), TTrue, TFalse, ex.pos(ex.fn.Pos())).SetNote("a callee may modify any map; contract lacks `modifies allmaps`")
 	}
@@ -868,6 +888,15 @@ func (ex *Exec) frameObligations() {
 			continue
 		}
 		if allMaps && (strings.HasPrefix(h, "MapDom_") || strings.HasPrefix(h, "MapVal_")) {
+			continue
+		}
+		pkgAllowed := false
+		for _, m := range ex.con.Modifies {
+			if m.pkgHeaps != "" && strings.HasPrefix(h, "H_"+m.pkgHeaps+".") {
+				pkgAllowed = true
+			}
+		}
+		if pkgAllowed {
 			continue
 		}
 		srt := ex.heapR.sorts[h]
